@@ -10,13 +10,17 @@
        left stack x basis evaluation x right stack -- column j of the micro matrix handed to lstsq.  Hence the
        current iterate is a feasible point of every micro problem, and by C16_lsq_pythagoras an exact micro
        solve cannot increase the residual.
+     - C16_kernel_fitted: for the kernel-based variant (coefficients z, coefficient tensor Psi z^T) the fitted values
+       are z G with G = Psi^T Psi (the Gram matrix of C15_gram); when z solves z G = y they equal y, and
+       y Psi^+ Psi = y for every Psi^+ with Psi Psi^+ Psi = Psi: the same fitted values as the other variants.
+       (The lstsq branch - singular G - needs definiteness of the scalars and is decided by the side check.)
    PARTIAL: the composed statement "residual(repeats k+1) <= residual(repeats k)" also needs "the QR/RQ
    re-orthonormalisation keeps the old function representable" (the dropped R factor is absorbed by the next
    least-squares solve) and an order on the scalars; it is decided by the side check together with rank
    preservation and "guess unchanged".  lstsq/SVD/QR are oracles (hypothesis: normal equations / orthonormality). *)
 From Coq Require Import ZArith List Lia Arith.
 Import ListNotations.
-Require Import Ring Sums Matrix Core Chain Sweep Regression RegressionProof.
+Require Import Ring Sums Matrix Core Chain Sweep Regression RegressionProof KernelProof.
 Open Scope cr_scope.
 
 Theorem C16_mandy_last (R : cring) (c : core R) dout m (y : M R) i a : rr c = 1%nat ->
@@ -52,6 +56,16 @@ Theorem C16_arr_frame (R : cring) j (pre suf : list (M R * core R)) (Th : M R) (
 Proof. exact (arr_frame j pre suf Th c). Qed.
 Print Assumptions C16_arr_frame.
 
+Theorem C16_kernel_fitted (R : cring) (N m : nat) (Psi z y Pp : M R) i j :
+  (forall i j, (j < m)%nat -> mmul m z (Gk N Psi) i j = y i j) ->
+  (forall x j, mmul N (mmul m Psi Pp) Psi x j = Psi x j) -> (j < m)%nat ->
+  kfitted N m Psi z i j = mmul m z (Gk N Psi) i j /\
+  kfitted N m Psi z i j = y i j /\ mmul N (mmul m y Pp) Psi i j = y i j.
+Proof.
+  intros Hs Hp Hj. split; [exact (kb_fitted N m Psi z i j)|exact (kb_exact N m Psi z y Pp Hs Hp i j Hj)].
+Qed.
+Print Assumptions C16_kernel_fitted.
+
 (* non-vacuity: the normal equations have solutions; a 2x1 instance over Z[i]: A = (1, i)^T, y = (2, 2i)^T, c = 2 *)
 Definition exA : M ZIring := fun j _ => if Nat.eqb j 0 then (1, 0)%Z else (0, 1)%Z.
 Definition exc : nat -> ZIring := fun _ => (2, 0)%Z.
@@ -59,3 +73,12 @@ Definition exy : nat -> ZIring := fun j => if Nat.eqb j 0 then (2, 0)%Z else (0,
 Example ex_normal_equations :
   forall r, (r < 1)%nat -> sum 2 (fun j => cconj ZIring (exA j r) * resid 2 1 exA exc exy j) = c0 ZIring.
 Proof. intros [|r] Hr; [vm_compute; reflexivity | lia]. Qed.
+
+(* non-vacuity of C16_kernel_fitted: Psi = [[1,2],[0,1]] (invertible, Psi^+ = Psi^-1 = [[1,-2],[0,1]]), z = [1,1] *)
+Definition exPsi : M Zring := fun x j => match x, j with 0%nat, 0%nat => 1%Z | 0%nat, 1%nat => 2%Z | 1%nat, 1%nat => 1%Z | _, _ => 0%Z end.
+Definition exPp : M Zring := fun j x => match j, x with 0%nat, 0%nat => 1%Z | 0%nat, 1%nat => (-2)%Z | 1%nat, 1%nat => 1%Z | _, _ => 0%Z end.
+Definition exz : M Zring := fun _ _ => 1%Z.
+Example ex_kernel_hyps :
+  (forall x j, (x < 2)%nat -> (j < 2)%nat -> mmul 2 (mmul 2 exPsi exPp) exPsi x j = exPsi x j) /\
+  mmul 2 exz (Gk 2 exPsi) 0%nat 1%nat = 7%Z.
+Proof. split; [intros [|[|x]] [|[|j]] Hx Hj; try lia; vm_compute; reflexivity | vm_compute; reflexivity]. Qed.
